@@ -43,19 +43,22 @@ VARIABLES blk,       \* DB: sequence of committed blocks [num, evs]; evs = seque
           rht,       \* DB: its node table (set of <<"n",l,r>>)
           uroots,    \* DB: root rows of the updatable tree (l1info): set of [idx, root, b, p]
           urht,      \* DB: its node table
+          gers,      \* DB (Kind = "ger"): imported_global_exit_root rows: set of [b, x]; primary key = block number
+          lost,      \* ghost (Kind = "ger"): GERs whose row was deleted by a removal event of a block that was reorged out
+                     \*       afterwards while their insertion survived (finding F2b: Reorg cannot bring the row back)
           mem,       \* process memory: [lastIndex, cache, halted]
           nextLeaf,  \* environment: next fresh leaf atom
           nops,
           lastRes,   \* result of the last operation (observed by the driver)
           hist       \* operation history (behaviour export; hidden by VIEW)
 
-vars == <<blk, aroots, rht, uroots, urht, mem, nextLeaf, nops, lastRes, hist>>
-view == <<blk, aroots, rht, uroots, urht, mem, nextLeaf, nops, lastRes>>
+vars == <<blk, aroots, rht, uroots, urht, gers, lost, mem, nextLeaf, nops, lastRes, hist>>
+view == <<blk, aroots, rht, uroots, urht, gers, lost, mem, nextLeaf, nops, lastRes>>
 
 FreshMem == [lastIndex |-> -2, cache |-> [h \in 0..(H - 1) |-> Junk], halted |-> FALSE]
 
 Init ==
-  /\ blk = <<>> /\ aroots = {} /\ rht = {} /\ uroots = {} /\ urht = {}
+  /\ blk = <<>> /\ aroots = {} /\ rht = {} /\ uroots = {} /\ urht = {} /\ gers = {} /\ lost = {}
   /\ mem = FreshMem /\ nextLeaf = 1 /\ nops = 0 /\ lastRes = "init" /\ hist = <<>>
 
 -----------------------------------------------------------------------------
@@ -142,6 +145,12 @@ EventStep(acc, b, p, e, failAt) ==
          IF lr = NoRoot THEN [acc EXCEPT !.ok = FALSE]
          ELSE IF e.good THEN acc ELSE [acc EXCEPT !.ok = FALSE, !.halt = TRUE]
     [] e.t = "verify" -> UpsertStep(acc, b, p, e.r, e.x, failAt)
+    [] e.t = "ger" ->     \* lastgersync: INSERT INTO imported_global_exit_root (primary key block_num)
+         IF Stmt(acc, failAt) \/ (\E r \in acc.gr : r.b = b) THEN [acc EXCEPT !.ok = FALSE, !.stmt = @ + 1]
+         ELSE [acc EXCEPT !.gr = @ \cup {[b |-> b, x |-> e.x]}, !.out = Append(@, [t |-> "ger", x |-> e.x, p |-> p]), !.stmt = @ + 1]
+    [] e.t = "gerrm" ->   \* DELETE FROM imported_global_exit_root WHERE global_exit_root = x
+         IF Stmt(acc, failAt) THEN [acc EXCEPT !.ok = FALSE, !.stmt = @ + 1]
+         ELSE [acc EXCEPT !.gr = {r \in @ : r.x # e.x}, !.out = Append(@, [t |-> "gerrm", x |-> e.x, p |-> p]), !.stmt = @ + 1]
 
 RECURSIVE Run(_, _, _, _, _)
 Run(acc, b, evs, p, failAt) ==
@@ -151,7 +160,7 @@ Run(acc, b, evs, p, failAt) ==
 (* number of storage statements of a fault-free run of the block: used to enumerate fault points *)
 NStmts(b, evs) ==
   LET a0 == [ok |-> TRUE, ar |-> aroots, nd |-> rht, ur |-> uroots, und |-> urht, m |-> mem, cbs |-> 0, out |-> <<>>,
-             stmt |-> 1, halt |-> FALSE, f5 |-> FALSE]
+             stmt |-> 1, halt |-> FALSE, f5 |-> FALSE, gr |-> gers]
   IN Run(a0, b, evs, 0, 0).stmt
 
 Rollback(m, cbs) == IF cbs = 0 THEN m
@@ -162,18 +171,19 @@ Process(b, evs, f) ==
   /\ nops < MaxOps
   /\ nops' = nops + 1
   /\ hist' = Append(hist, [op |-> "process", num |-> b, evs |-> evs, fault |-> f])
+  /\ UNCHANGED lost
   /\ IF mem.halted
-     THEN /\ lastRes' = "inconsistent" /\ UNCHANGED <<blk, aroots, rht, uroots, urht, mem>>
+     THEN /\ lastRes' = "inconsistent" /\ UNCHANGED <<blk, aroots, rht, uroots, urht, gers, mem>>
      ELSE
        LET failAt == IF f.kind \in {"stmt", "ctx"} THEN f.at ELSE 0
            a0 == [ok |-> (failAt # 1), ar |-> aroots, nd |-> rht, ur |-> uroots, und |-> urht, m |-> mem, cbs |-> 0,
-                  out |-> <<>>, stmt |-> 1, halt |-> FALSE, f5 |-> FALSE]  \* statement 1 = INSERT INTO block
+                  out |-> <<>>, stmt |-> 1, halt |-> FALSE, f5 |-> FALSE, gr |-> gers]  \* statement 1 = INSERT INTO block
            a  == Run(a0, b, evs, 0, failAt)
        IN IF a.ok /\ f.kind # "commit"
           THEN /\ blk' = Append(blk, [num |-> b, evs |-> a.out])
-               /\ aroots' = a.ar /\ rht' = a.nd /\ uroots' = a.ur /\ urht' = a.und
+               /\ aroots' = a.ar /\ rht' = a.nd /\ uroots' = a.ur /\ urht' = a.und /\ gers' = a.gr
                /\ mem' = a.m /\ lastRes' = "ok"
-          ELSE /\ UNCHANGED <<blk, aroots, rht, uroots, urht>>
+          ELSE /\ UNCHANGED <<blk, aroots, rht, uroots, urht, gers>>
                \* stmt fault / logical error: SQL rollback succeeds -> callbacks run.  commit failure or cancelled
                \* context: Rollback() = ErrTxDone -> no callback runs.
                /\ mem' = LET m1 == IF f.kind \in {"commit", "ctx"} THEN a.m ELSE Rollback(a.m, a.cbs)
@@ -182,19 +192,35 @@ Process(b, evs, f) ==
                              ELSE IF a.f5 THEN "errorF5"                 \* known finding F5: the block can never be stored
                              ELSE IF f.kind = "none" THEN "errorNoFault" ELSE "error"
 
+RemovesGer(evs, x) == \E i \in DOMAIN evs : evs[i].t = "gerrm" /\ evs[i].x = x
+InsertsGer(evs, x) == \E i \in DOMAIN evs : evs[i].t = "ger" /\ evs[i].x = x
+GerInsertedBefore(b) == { x \in 1..MaxLeaves : \E i \in DOMAIN blk : blk[i].num < b /\ InsertsGer(blk[i].evs, x) }
+
 Reorg(b) ==
   /\ nops < MaxOps
   /\ nops' = nops + 1
-  /\ hist' = Append(hist, [op |-> "reorg", from |-> b])
+  /\ hist' = Append(hist, [op |-> "reorg", from |-> b, fault |-> [kind |-> "none", at |-> 0]])
   /\ LET keep == SelectSeq(blk, LAMBDA x : x.num < b) IN
      /\ blk' = keep
      /\ aroots' = {r \in aroots : r.b < b}
      /\ uroots' = {r \in uroots : r.b < b}
+     /\ gers' = {r \in gers : r.b < b}                   \* ON DELETE CASCADE from block; removed rows do not come back
+     /\ lost' = lost \cup { x \in GerInsertedBefore(b) : \E i \in DOMAIN blk : blk[i].num >= b /\ RemovesGer(blk[i].evs, x) }
      /\ mem' = IF Len(keep) < Len(blk) THEN [mem EXCEPT !.halted = FALSE] ELSE mem
   /\ lastRes' = "ok"
   /\ UNCHANGED <<rht, urht>>
 
+(* a Reorg whose transaction fails (a fault at one of its DELETE statements, or at commit): everything is rolled back,
+   and the halted flag must stay as it is - UnhaltIfAffectedRows runs only after a successful commit *)
+ReorgFail(b, k) ==
+  /\ nops < MaxOps
+  /\ nops' = nops + 1
+  /\ hist' = Append(hist, [op |-> "reorg", from |-> b, fault |-> [kind |-> "stmt", at |-> k]])
+  /\ lastRes' = "error"
+  /\ UNCHANGED <<blk, aroots, rht, uroots, urht, gers, lost, mem>>
+
 Restart ==
+  /\ UNCHANGED <<gers, lost>>
   /\ nops < MaxOps
   /\ nops' = nops + 1
   /\ hist' = Append(hist, [op |-> "restart"])
@@ -207,7 +233,8 @@ Restart ==
 DepositCount == Len(LeavesOf(blk))
 
 (* event shapes; leaf atoms are assigned fresh, in order *)
-Shapes == IF Kind = "bridge"
+Shapes == IF Kind = "ger" THEN {<<"ger">>} \cup {<<"gerrm", x>> : x \in 1..MaxLeaves}
+          ELSE IF Kind = "bridge"
           THEN {<<"leaf">>, <<"other">>} \cup (IF AllowGap THEN {<<"gap">>} ELSE {})
           ELSE {<<"leaf">>, <<"v2good">>, <<"v2bad">>} \cup {<<"verify", r, x>> : r \in Rollups, x \in ExitRoots}
 
@@ -215,14 +242,16 @@ RECURSIVE Concrete(_, _, _)
 Concrete(shapes, nl, dc) ==   \* turn a sequence of shapes into events with fresh leaf atoms / deposit counts
   IF shapes = <<>> THEN <<>>
   ELSE LET s == Head(shapes)[1] IN
-       IF s = "leaf" THEN <<[t |-> "leaf", x |-> nl, dc |-> dc]>> \o Concrete(Tail(shapes), nl + 1, dc + 1)
+       IF s = "ger" THEN <<[t |-> "ger", x |-> nl]>> \o Concrete(Tail(shapes), nl + 1, dc)
+       ELSE IF s = "gerrm" THEN <<[t |-> "gerrm", x |-> Head(shapes)[2]]>> \o Concrete(Tail(shapes), nl, dc)
+       ELSE IF s = "leaf" THEN <<[t |-> "leaf", x |-> nl, dc |-> dc]>> \o Concrete(Tail(shapes), nl + 1, dc + 1)
        ELSE IF s = "gap" THEN <<[t |-> "leaf", x |-> nl, dc |-> dc + 1]>> \o Concrete(Tail(shapes), nl + 1, dc + 2)
        ELSE IF s = "other" THEN <<[t |-> "other"]>> \o Concrete(Tail(shapes), nl, dc)
        ELSE IF s = "v2good" THEN <<[t |-> "v2", good |-> TRUE]>> \o Concrete(Tail(shapes), nl, dc)
        ELSE IF s = "v2bad" THEN <<[t |-> "v2", good |-> FALSE]>> \o Concrete(Tail(shapes), nl, dc)
        ELSE <<[t |-> "verify", r |-> Head(shapes)[2], x |-> Head(shapes)[3]]>> \o Concrete(Tail(shapes), nl, dc)
 
-NLeaves(shapes) == Cardinality({i \in DOMAIN shapes : shapes[i][1] \in {"leaf", "gap"}})
+NLeaves(shapes) == Cardinality({i \in DOMAIN shapes : shapes[i][1] \in {"leaf", "gap", "ger"}})
 
 ShapeSeqs == UNION {[1..n -> Shapes] : n \in 0..MaxEvents}
 
@@ -238,6 +267,7 @@ DoProcess ==
     \* a V2 announcement only makes sense after a leaf exists (the contract emits it after UpdateL1InfoTree)
     /\ \A i \in DOMAIN ss : ss[i][1] \in {"v2good", "v2bad"} =>
           (aroots # {} \/ \E j \in 1..(i - 1) : ss[j][1] = "leaf")
+    /\ \A i \in DOMAIN ss : ss[i][1] = "gerrm" => ss[i][2] < nextLeaf      \* only a GER that was injected can be removed
     /\ LET b   == LastBlock + 1
            evs == Concrete(ss, nextLeaf, DepositCount)
            n   == NStmts(b, evs)
@@ -249,7 +279,10 @@ DoProcess ==
           \* a block that was not stored is retried with the same content: leaf atoms are consumed only on success
           /\ nextLeaf' = IF lastRes' = "ok" THEN nextLeaf + NLeaves(ss) ELSE nextLeaf
 
-DoReorg   == AllowReorg /\ \E b \in 1..(MaxBlocks + 1) : (Reorg(b) /\ UNCHANGED nextLeaf)
+DoReorg   == AllowReorg /\ \E b \in 1..(MaxBlocks + 1) :
+                \/ (Reorg(b) /\ UNCHANGED nextLeaf)
+                \/ ("reorg" \in Faults /\ \E k \in 1..(IF Kind = "l1info" THEN 3 ELSE IF Kind = "bridge" THEN 2 ELSE 1) :
+                      (ReorgFail(b, k) /\ UNCHANGED nextLeaf))
 DoRestart == AllowRestart /\ Restart /\ UNCHANGED nextLeaf
 
 Next == DoProcess \/ DoReorg \/ DoRestart
@@ -308,6 +341,20 @@ HaltedStops == [][mem.halted /\ mem'.halted => blk' = blk \/ Len(blk') < Len(blk
 (* a fault-free ProcessBlock of a consistent block succeeds (otherwise the history is not mirrored: C11/C07).
    "errorF5" is the known finding F5 (DESIGN.md 3.6: narrow, named excuse; TLC reports how often it is reached). *)
 FaultFreeSucceeds == lastRes # "errorNoFault"
+
+(* injected-GER store: the rows are the GERs inserted and not removed since, in the surviving history - except those lost
+   by finding F2b (narrow, named excuse: the removal was in a reorged-out block and the insertion survived) *)
+RECURSIVE LiveGersOfEvs(_, _)
+LiveGersOfEvs(evs, live) == IF evs = <<>> THEN live
+                            ELSE LiveGersOfEvs(Tail(evs), IF Head(evs).t = "ger" THEN live \cup {Head(evs).x}
+                                                          ELSE IF Head(evs).t = "gerrm" THEN live \ {Head(evs).x} ELSE live)
+RECURSIVE LiveGers(_, _)
+LiveGers(bs, live) == IF bs = <<>> THEN live ELSE LiveGers(Tail(bs), LiveGersOfEvs(Head(bs).evs, live))
+GerMirror == LET want == LiveGers(blk, {}) have == {r.x : r \in gers} IN
+             /\ have \subseteq want
+             /\ (want \ have) \subseteq lost
+             /\ \A r, q \in gers : r.b = q.b => r = q
+InvGer == GerMirror /\ BlocksIncrease /\ FaultFreeSucceeds
 
 Inv == RootsMirror /\ FaultFreeSucceeds /\ ConsecutiveIdx /\ BlocksIncrease /\ ProofsVerify
 InvL1 == Inv /\ RollupTreeMirror /\ UProofsVerify
